@@ -31,7 +31,8 @@ class Transform2D(EventDispatcher):
         super().__init__()
 
         self._position: dmath.Vec2 = dmath.Vec2(*position)
-        self._rotation: float = rotation % 360.
+        # Reduce before converting: whole numbers stay exact
+        self._rotation: float = float(rotation % 360)
         self._scale: dmath.Vec2 = dmath.Vec2(*scale)
 
     @property
@@ -49,7 +50,7 @@ class Transform2D(EventDispatcher):
 
     @rotation.setter
     def rotation(self, value):
-        self._rotation = value % 360.
+        self._rotation = float(value % 360)
         self.dispatch(ON_ROTATION_CHANGE_EVENT_NAME, self._rotation)
 
     @property
